@@ -198,6 +198,48 @@ def rule_all_outputs(ctx: Ctx) -> None:
     n_raise = len([r for r in rejections(ctx.cfg(apost), apost.node) if not r["dead"]])
     ctx.tri("3-all-outputs", apost, apost.node, n_ident >= 4 and n_raise >= 3, n_ident == 0 or n_raise == 0, "names, scopes and index names must be identifiers", "identifier validation of names / indices is gone", f"{n_ident} isidentifier() tests, {n_raise} rejections", key="identifiers")
 
+    # the ONLY index name exempt from the identifier test is None (':'): a truthiness test also exempts the empty name ''
+    ax_rej = [r for r in rejections(ctx.cfg(apost), apost.node, Defs(apost)) if not r["dead"] and any(norm(i) == "self.axes" for _t, i in r["iters"]) and any("isidentifier" in c for c in r["conds"][-1:])]
+    for r in ax_rej:
+        var = next(t for t, i in r["iters"] if norm(i) == "self.axes")
+        last = r["conds"][-1]
+        if last.startswith("(") and last.endswith(")"):
+            last = last[1:-1]
+        parts = [p_.strip() for p_ in last.split(" and ")]
+        exact = f"{var} is not None" in parts
+        truthy = var in parts or f"bool({var})" in parts or f"len({var}) > 0" in parts or f"{var} != ''" in parts
+        ctx.tri("3-all-outputs", apost, r["node"], exact and not truthy, truthy, "an index name is exempt from the identifier test only when it is None (':')",
+                f"`{last[:70]}` exempts every FALSY index name from the identifier test, not only None: the empty name '' (\"a[i, ]\", ArraySpec('a', ('',))) is accepted as an index",
+                f"exemption in `{last[:60]}` not recognised", key="none-only-exempt")
+    # rename is total on well-formed specs: a simultaneous renaming (swap, chain) never collides with a CURRENT name
+    rn = ms.methods["rename"]
+    direct = [r for r in rejections(ctx.cfg(rn), rn.node, Defs(rn)) if not r["dead"]]
+    # (a rejection that does not ask whether a name is among the current names is something else: not judged)
+    collide = [r for r in direct if any(" in " in c_ and "not in" not in c_.replace("renames", "") for c_ in r["conds"])]
+    ctx.add("3-all-outputs", rn, direct[0]["node"] if direct else rn.node, (not direct) if (not direct or collide) else None, "MapSpec.rename itself refuses nothing (the constructor validates the result)" if not direct else
+            (f"UNDECIDED: MapSpec.rename refuses `{' and '.join(direct[0]['conds'])[:80]}`, which this rule cannot classify" if not collide else "") +
+            f"MapSpec.rename refuses `{' and '.join(direct[0]['conds'])[:90]}`: renames are simultaneous, a new name may equal a name that is renamed away in the same call (a swap `{{a: b, b: a}}` or a chain) - "
+            "a well-formed spec and a renaming with a well-formed result is rejected", key="rename-total")
+    # input_keys has an entry for EVERY input (':'-only inputs get full slices)
+    from ..flow import element_domain
+
+    ik = ms.methods["input_keys"]
+    doms = []
+    for n_ in ast.walk(ik.node):
+        keys_ = []
+        if isinstance(n_, ast.DictComp):
+            keys_.append(n_.key)
+        elif isinstance(n_, ast.Assign):
+            keys_ += [t.slice for t in n_.targets if isinstance(t, ast.Subscript)]
+        for k_ in keys_:
+            if isinstance(k_, ast.Attribute) and k_.attr == "name" and isinstance(k_.value, ast.Name):
+                doms += [(n_, v) for v in element_domain(ctx, ik, k_.value.id, ("self.inputs",))]
+    wholes = [x for x in doms if x[1][0] == "whole"]
+    restr = [x for x in doms if x[1][0] == "restricted"]
+    ctx.tri("3-all-outputs", ik, (restr or doms or [(ik.node, None)])[0][0], bool(wholes) and not restr, bool(restr), "input_keys has an entry for every input of the spec",
+            f"input_keys only has entries for a restriction of the inputs ({restr[0][1][1] if restr else ''}): an input outside it (e.g. `x[:]`, only ':' axes) is missing from the returned keys instead of getting full slices",
+            "the inputs that input_keys ranges over were not recognised", key="input-keys-every-input")
+
 
 def _strip_bool(e: ast.AST) -> ast.AST:
     while isinstance(e, ast.Call) and dotted(e.func) == "bool" and len(e.args) == 1:
